@@ -122,6 +122,72 @@ def _op_sm9_enc_master(l, seed, n):
     return r, mk.raw()
 
 
+
+def _op_sm9_export(fn):
+    """password-based export of an SM9 master / user key (EncryptedPrivateKeyInfo): a salt and an IV are drawn"""
+    def op(l, seed, n, keys):
+        mk, uk, idb = keys
+        k = mk if "master" in fn else uk
+        out = Buf(1024, fill=0); op_ = ctypes.c_void_p(out.ptr); ol = ctypes.c_size_t(0)
+        r = getattr(l, fn)(k, Buf.of(b"password-%d\0" % seed), ctypes.byref(op_), ctypes.byref(ol))
+        return r, out.raw(min(ol.value, 1024))
+    return op
+
+
+def _op_sm9_kem(l, seed, n, keys):
+    mk, uk, idb = keys
+    klen = 16 + n % 48
+    kb = Buf(klen, fill=0); C = obj("SM9_Z256_POINT")
+    r = l.sm9_kem_encrypt(mk, Buf.of(idb), len(idb), klen, kb, C)
+    return r, kb.raw() + C.raw()
+
+
+def _op_sm9_exch_1b(l, seed, n, keys):
+    """initiator step 1A followed by responder step 1B: two ephemeral scalars"""
+    mk, uk, idb = keys
+    RA = obj("SM9_Z256_POINT"); rA = Buf(32, fill=0)
+    r = l.sm9_exch_step_1A(mk, Buf.of(idb), len(idb), RA, rA)
+    if r != 1:
+        return r, b""
+    klen = 16 + n % 48
+    RB = obj("SM9_Z256_POINT"); sk = Buf(klen, fill=0)
+    r = l.sm9_exch_step_1B(mk, Buf.of(b"bob"), 3, Buf.of(idb), len(idb), uk, RA, RB, sk, klen)
+    return r, RA.raw() + RB.raw() + sk.raw()
+
+
+def _x509_fixture(seed):
+    from vlib import x509lib as X
+    name = X.ref_name({"via": "add", "attrs": [{"t": "CN", "tag": X.PRINTABLE, "v": "op %d" % (seed % 1000)}]})
+    return X, name, key_in(d=_d(seed, "issuer")), key_in(pub=M.pub_of(_d(seed, "subject")))
+
+
+def _op_x509_cert_sign(l, seed, n):
+    X, name, skey, pkey = _x509_fixture(seed)
+    serial = _bytes(seed, "serial", 1 + n % 12); serial = bytes([serial[0] & 0x7F | 1]) + serial[1:]
+    nb, sb, idb = Buf.of(name), Buf.of(serial), Buf.of(M.DEFAULT_ID)
+    out = Buf(2048, fill=0); op_ = ctypes.c_void_p(out.ptr); ol = ctypes.c_size_t(0)
+    r = l.x509_cert_sign_to_der(2, sb, len(serial), X.sm2sign_oid(l), nb, len(name), pki.T0, pki.T0 + 86400 * (1 + n), nb, len(name), pkey,
+                                None, 0, None, 0, None, 0, skey, idb, 16, ctypes.byref(op_), ctypes.byref(ol))
+    return r, out.raw(min(ol.value, 2048))
+
+
+def _op_x509_req_sign(l, seed, n):
+    X, name, skey, pkey = _x509_fixture(seed)
+    nb, idb = Buf.of(name), Buf.of(M.DEFAULT_ID)
+    out = Buf(2048, fill=0); op_ = ctypes.c_void_p(out.ptr); ol = ctypes.c_size_t(0)
+    r = l.x509_req_sign_to_der(0, nb, len(name), pkey, Buf(1), 0, X.sm2sign_oid(l), skey, idb, 16, ctypes.byref(op_), ctypes.byref(ol))
+    return r, out.raw(min(ol.value, 2048))
+
+
+def _op_x509_crl_sign(l, seed, n):
+    X, name, skey, pkey = _x509_fixture(seed)
+    nb, idb = Buf.of(name), Buf.of(M.DEFAULT_ID)
+    out = Buf(2048, fill=0); op_ = ctypes.c_void_p(out.ptr); ol = ctypes.c_size_t(0)
+    r = l.x509_crl_sign_to_der(1, X.sm2sign_oid(l), nb, len(name), pki.T0, pki.T0 + 86400 * (1 + n), None, 0, None, 0,
+                               skey, idb, 16, ctypes.byref(op_), ctypes.byref(ol))
+    return r, out.raw(min(ol.value, 2048))
+
+
 _SM9 = {}
 
 
@@ -258,11 +324,18 @@ PURE = {
     "pkcs8_encrypt": _op_pkcs8_encrypt, "sm9_sign_master_key_generate": _op_sm9_sign_master, "sm9_enc_master_key_generate": _op_sm9_enc_master,
     "sm9_sign": _op_sm9_sign, "sm9_encrypt": _op_sm9_encrypt, "sm9_exch_step_1A": _op_sm9_exch_1a,
     "tls_cbc_encrypt": _op_tls_cbc_encrypt, "tls_random_generate": _op_tls_random, "tls_pre_master_secret_generate": _op_tls_premaster,
+    "sm9_kem_encrypt": _op_sm9_kem, "sm9_exch_step_1B": _op_sm9_exch_1b,
+    "x509_cert_sign_to_der": _op_x509_cert_sign, "x509_req_sign_to_der": _op_x509_req_sign, "x509_crl_sign_to_der": _op_x509_crl_sign,
 }
-SM9_KIND = {"sm9_sign": "sign", "sm9_encrypt": "enc", "sm9_exch_step_1A": "enc"}
+SM9_KIND = {"sm9_sign": "sign", "sm9_encrypt": "enc", "sm9_exch_step_1A": "enc", "sm9_kem_encrypt": "enc", "sm9_exch_step_1B": "enc"}
+for _fn, _kind in (("sm9_sign_master_key_info_encrypt_to_der", "sign"), ("sm9_sign_key_info_encrypt_to_der", "sign"),
+                   ("sm9_enc_master_key_info_encrypt_to_der", "enc"), ("sm9_enc_key_info_encrypt_to_der", "enc")):
+    PURE[_fn] = _op_sm9_export(_fn)
+    SM9_KIND[_fn] = _kind
 # operations whose first entropy draw is a scalar that has to lie in [1, n-1] (0 must be drawn again)
 ZERO_DRAW_OPS = ("sm2_key_generate", "sm2_sign", "sm2_do_sign", "sm2_sign_fixlen", "sm2_sign_ctx", "sm2_encrypt", "sm2_encrypt_fixlen", "sm2_encrypt_ctx",
-                 "sm9_sign_master_key_generate", "sm9_enc_master_key_generate", "sm9_sign", "sm9_encrypt", "sm9_exch_step_1A")
+                 "sm9_sign_master_key_generate", "sm9_enc_master_key_generate", "sm9_sign", "sm9_encrypt", "sm9_exch_step_1A",
+                 "sm9_kem_encrypt", "sm9_exch_step_1B", "x509_cert_sign_to_der", "x509_req_sign_to_der", "x509_crl_sign_to_der")
 
 pure_case = st.fixed_dictionaries({"op": st.sampled_from(sorted(PURE)), "seed": st.integers(0, 1 << 20), "n": st.integers(0, 300),
                                    "sa": st.integers(1, 1 << 40), "sb": st.integers(1, 1 << 40)})
@@ -274,7 +347,7 @@ def _call(l, op, seed, n):
     return PURE[op](l, seed, n)
 
 
-@P.sub("pure", pure_case, quick=640, thorough=12000, chunk=40)
+@P.sub("pure", pure_case, quick=880, thorough=12000, chunk=40)
 def pure(case, ctx):
     """library operations: determinism on one stream, dependence on the stream, failure at every draw index"""
     l = lib(ctx.variant)
